@@ -13,3 +13,10 @@ Inductive hclass : Type :=
 Inductive elem : Type :=
 | Lit (b : list N)
 | Hole (c : hclass).
+
+(** one call of a reply that is assembled from several calls: a literal handed to netwrite, or the
+    array handed to net_writen / net_write_multiline *)
+Inductive piece : Type :=
+| PLit (b : list N)
+| PWriten (t : list elem)
+| PMulti (t : list elem).
